@@ -1,0 +1,47 @@
+package cmd
+
+import (
+	"os"
+	"path/filepath"
+)
+
+// writeFileAtomic replaces the file at path with data without ever exposing a
+// partially written file. The data is written to a temporary file in the same
+// directory, which is renamed over the original only after it has been written
+// and closed successfully. If anything fails, or the process dies half-way,
+// the original file is left untouched. An existing file keeps its permission
+// bits (as with os.WriteFile); perm is used for new files.
+func writeFileAtomic(path string, data []byte, perm os.FileMode) error {
+	// Write through symlinks like os.WriteFile does, instead of replacing the link.
+	if resolved, err := filepath.EvalSymlinks(path); err == nil {
+		path = resolved
+	}
+	if info, err := os.Stat(path); err == nil {
+		perm = info.Mode().Perm()
+	}
+
+	tmp, err := os.CreateTemp(filepath.Dir(path), ".gosqlx-*.tmp")
+	if err != nil {
+		return err
+	}
+	tmpName := tmp.Name()
+
+	_, err = tmp.Write(data)
+	if err == nil {
+		err = tmp.Chmod(perm)
+	}
+	if err == nil {
+		err = tmp.Sync()
+	}
+	if cerr := tmp.Close(); err == nil {
+		err = cerr
+	}
+	if err == nil {
+		err = os.Rename(tmpName, path)
+	}
+	if err != nil {
+		_ = os.Remove(tmpName)
+		return err
+	}
+	return nil
+}
